@@ -51,7 +51,8 @@ CONTS = ["arr", "deq", "map", "set", "tup", "any"]
 IMPORTS = ("from typedpy import (Structure, ImmutableStructure, Integer, String, Float, Boolean, Array, Deque, Set, "
            "Tuple, Map, Anything, Enum)\n")
 
-ROLES = ["required", "populated", "container", "none", "absent", "default"]
+# "anything": an Anything-typed populated field (no validation at all: the only field type that accepts None itself)
+ROLES = ["required", "populated", "container", "anything", "none", "absent", "default"]
 # undeclared / sunder names, and the two bookkeeping attributes every instance carries: reachable through the
 # ordinary attribute protocol (x._instantiated = ..., del x["_instantiated"]), so part of "attribute assignment or
 # deletion"; only direct __dict__ / object.__setattr__ access is excluded by the statement
@@ -83,7 +84,7 @@ def spec_fields(types):
 
 
 def default_types(i=0):
-    return {"required": "int", "populated": SCALARS[i % len(SCALARS)], "container": CONTS[i % len(CONTS)],
+    return {"required": "int", "populated": SCALARS[i % len(SCALARS)], "container": CONTS[i % len(CONTS)], "anything": "any",
             "none": "int", "absent": "int", "default": "int"}
 
 
@@ -126,7 +127,7 @@ def realize(spec):
 def ctor_kwargs(spec, with_none=True):
     kw = {}
     for fname, ty, role in spec["fields"]:
-        if role in ("required", "populated", "container"):
+        if role in ("required", "populated", "container", "anything"):
             kw[fname] = mkval(FIELD_TYPES[ty][1])
         elif role == "none" and with_none:
             kw[fname] = None
@@ -247,6 +248,8 @@ def all_ops(spec, x):
     ops = []
     for key, role in keys_for(spec, x):
         for vc in VALUE_CLASSES:
+            if vc == "invalid" and type_of_key(spec, key) == "any":
+                continue        # Anything has no invalid value
             ops.append((["setattr", key, vc], role))
         ops.append((["delattr", key], role))
         ops.append((["delitem", key], role))
@@ -398,7 +401,7 @@ def lattice_specs():
 
 def random_spec(rnd):
     types = {"required": rnd.choice(SCALARS + CONTS), "populated": rnd.choice(SCALARS + CONTS),
-             "container": rnd.choice(CONTS), "none": rnd.choice(SCALARS + CONTS), "absent": rnd.choice(SCALARS + CONTS),
+             "container": rnd.choice(CONTS), "anything": "any", "none": rnd.choice(SCALARS + CONTS), "absent": rnd.choice(SCALARS + CONTS),
              "default": rnd.choice(SCALARS)}
     # the rarely used options are drawn with probability 1/2 each
     return {"ctx": rnd.choice(["struct", "struct", "field"]), "eu": rnd.random() < 0.5, "ign": rnd.random() < 0.5,
